@@ -84,6 +84,21 @@ def lpUpdate (lp : LiqProt) : M LiqProt :=
     lpPick lp repl room
   else .ok lp
 
+/-- liquidityprotection.go `MustUpdateLiquidityProtectionThreshold`, the only place where a
+    permissionless message (a swap that buys or sells the native asset) writes state the BeginBlocker
+    reads; `value` = `CalcRowanValue(amount, price)`.  A panic here is inside a transaction. -/
+def lpBuy (lp : LiqProt) (value room : Nat) : M LiqProt :=
+  if room < value then .ok { lp with cur := lp.max }
+  else (Uint.add lp.cur value).map (fun c => { lp with cur := c })
+
+def lpUserUpdate (lp : LiqProt) (sellNative : Bool) (value : Nat) : M LiqProt :=
+  if lp.active then
+    if sellNative then
+      if lp.cur < value then .error .other        -- explicit panic(errors.New(…))
+      else (Uint.sub lp.cur value).map (fun c => { lp with cur := c })
+    else (Uint.sub lp.max lp.cur).bind (lpBuy lp value)
+  else .ok lp
+
 /-! ### PMTP -/
 
 /-- pmtp.go `PolicyStart` -/
